@@ -2,7 +2,8 @@
 # usage: vetseed.sh <property> <k> [extra properties to check...]
 # Confirms a sub-agent's seeded change in a scratch worktree of /repo HEAD and stores it under /verif/seeded/.
 id=$1; k=$2; shift 2; extra="$@"
-src=/tmp/seedout-$id/$k
+src=${SEEDSRC:-/tmp/seedout}-$id/$k
+kk=$((k + ${KOFF:-0}))
 [ -f $src/patch.diff ] || { echo "no patch in $src"; exit 2; }
 export GOFLAGS=-mod=mod GOPROXY=off GOSUMDB=off GOTOOLCHAIN=local
 S=$(mktemp -d /tmp/vetseed.XXXXXX)
@@ -26,10 +27,10 @@ echo "demo without change: rc=$r1 (want 0); demo with change: rc=$r2 (want !=0);
 if [ $r1 -ne 0 ]; then tail -15 $S/demo_without.log; fi
 if [ $r3 -ne 0 ]; then grep -v "^ok\|no test files" $S/suite.log | tail -10; fi
 if [ $r1 -eq 0 ] && [ $r2 -ne 0 ] && [ $r3 -eq 0 ]; then
-  d=/verif/seeded/$id-$k; mkdir -p $d
+  d=/verif/seeded/$id-$kk; mkdir -p $d
   (cd $S/repo && git diff) > $d/patch.diff
   cp $demo $d/demo_test.go; cp $src/notes.md $d/notes.md 2>/dev/null
-  python3 - "$id" "$k" "$d" "$dir" <<'PY'
+  python3 - "$id" "$kk" "$d" "$dir" <<'PY'
 import json,sys,re
 id,k,d,dir=sys.argv[1:5]
 notes=open(d+'/notes.md').read() if True else ''
